@@ -40,7 +40,7 @@ DvSeq(t, s, cfg) == [k \in 1..Len(s) |-> Dv(t, s[k], cfg)]
 MemberDoc(f, x, cfg) == IF f.max > 1 THEN (IF x = Nil THEN Null ELSE <<"list", DvSeq(f.t, x[2], cfg)>>) ELSE Dv(f.t, x, cfg)
 Pairs(fl, vals, cfg, k) ==
   IF k > Len(fl) THEN <<>>
-  ELSE (IF ~Exc(fl[k]) /\ (vals[k] # Nil \/ fl[k].min > 0) THEN << <<fl[k].n, MemberDoc(fl[k], vals[k], cfg)>> >> ELSE <<>>) \o Pairs(fl, vals, cfg, k + 1)
+  ELSE (IF ~Exc(fl[k]) /\ (vals[k] # Nil \/ fl[k].min > 0) THEN << <<PubN(fl[k]), MemberDoc(fl[k], vals[k], cfg)>> >> ELSE <<>>) \o Pairs(fl, vals, cfg, k + 1)
 Positional(fl, vals, cfg) == LET ix == Included(fl) IN <<"list", [j \in 1..Len(ix) |-> MemberDoc(fl[ix[j]], vals[ix[j]], cfg)]>>
 Dv(t, v, cfg) ==
   IF v = Nil THEN Null
